@@ -67,6 +67,9 @@ func init() {
 		"(reflect.rtype).NumOut":       ext۰reflect۰rtype۰NumOut,
 		"(reflect.rtype).Out":          ext۰reflect۰rtype۰Out,
 		"(reflect.rtype).Size":         ext۰reflect۰rtype۰Size,
+		"(reflect.rtype).PkgPath":      ext۰reflect۰rtype۰PkgPath,
+		"(reflect.rtype).Name":         ext۰reflect۰rtype۰Name,
+		"(reflect.Value).IsZero":       ext۰reflect۰Value۰IsZero,
 		"(reflect.rtype).String":       ext۰reflect۰rtype۰String,
 		"math.Abs":                     ext۰math۰Abs,
 		"math.Copysign":                ext۰math۰Copysign,
